@@ -157,6 +157,20 @@ PROPS = {
              'sub-circuit values, predict against the arg-max (margin rule), sampling with given labels / requested counts; density '
              'estimators: log-probabilities, MPE and (conditional) samples against the wrapped circuit; non-trivial = every fitted '
              'model; distinct = distinct learned circuit',
+    ),    'C13': dict(
+        module='c13',
+        modules=['DeeprobModel.Props.C13', 'DeeprobModel.Oblig.C13'],
+        theorems=['Deeprob.C13.round8_err', 'Deeprob.C13.round8_idem', 'Deeprob.C13.decode_encode', 'Deeprob.C13.decode_encode_id',
+                  'Deeprob.C13.gen_idempotent_partial', 'Deeprob.C13.repeated_child_loses_edge',
+                  'Deeprob.Oblig.C13.fit_loadable_gaussian', 'Deeprob.Oblig.C13.em_loadable_gaussian', 'Deeprob.Oblig.C13.fit_loadable_bernoulli',
+                  'Deeprob.Oblig.C13.weights_loadable', 'Deeprob.Oblig.C13.probabilities_loadable', 'Deeprob.Oblig.C13.densities_loadable',
+                  'Deeprob.Oblig.C13.round8_is_generated'],
+        fragments=['gaussCtorRejects', 'gaussFitClamp', 'gaussEmClamp', 'bernCtorRejects', 'bernFit', 'catFit', 'sumCtorRejects', 'jsonDigits'],
+        rule='hand-built circuits over every leaf family (incl. CLT leaves, sharing), Chow-Liu trees saved alone, circuits returned '
+             'by LearnSPN (Gaussian with a constant column, Uniform, Isotonic), XPC (deterministic; structured decomposable), the '
+             'classifier wrapper and CLT fitting; path and file-object targets; three generations; document numbers compared with the '
+             'model encoding exactly; inputs within 1e-6 of a histogram break / support edge excluded from the log-likelihood '
+             'comparison; non-trivial = more than one node; distinct = distinct node table / learner configuration',
     ),
 }
 
